@@ -124,6 +124,15 @@ theorem Sim.andThen {R1 R2 : Actor → σ → Prop} {s : σ} {x : M} {f : Actor 
   obtain ⟨s2, hb, hr2⟩ := h2 _ _ hr
   exact ⟨s2, by simp [accepts_append next _ ha, hb], hr2⟩
 
+/-- `Sim.andThen` whose continuation also learns that the first part's trace was accepted. -/
+theorem Sim.andThen' {R1 R2 : Actor → σ → Prop} {s : σ} {x : M} {f : Actor → M}
+    (h1 : Sim next R1 s x)
+    (h2 : ∀ a s1, R1 a s1 → accepts next s (evs x.2) = .ok s1 → Sim next R2 s1 (f a)) :
+    Sim next R2 s (Life.andThen x f) := by
+  obtain ⟨s1, ha, hr⟩ := h1
+  obtain ⟨s2, hb, hr2⟩ := h2 _ _ hr ha
+  exact ⟨s2, by simp [accepts_append next _ ha, hb], hr2⟩
+
 theorem Sim.pure {R : Actor → σ → Prop} {s : σ} {a : Actor} (h : R a s) :
     Sim next R s (a, []) := ⟨s, rfl, h⟩
 
